@@ -819,6 +819,116 @@ def oracle_classes(ctx):
             class_sequence(ctx, spec)
 
 
+def scribble(f, S):
+    """what a caller may do with arrays it owns"""
+    f *= 2 * np.pi
+    f[0] = np.nan
+    S[...] = 0
+
+
+def ownership_case(ctx, method, n, fs, m, Y1, Yr1, Y2, Yr2, case):
+    """the caller owns what SD_est returns and the records it passed: after it has overwritten all of them in place, a further estimate
+    with the same (nxseg, fs, method) - on the same values and on another record - is what a first call gives: grid k*fs/nxseg, the same
+    spectrum bit for bit, and no memory shared with the arrays handed out before."""
+    pov = m / n
+    fe = np.arange(n // 2 + 1) * fs / n
+    with Guard(ctx, method, case):
+        a1, ar1 = np.array(Y1, float), np.array(Yr1, float)        # the caller's copies of the first record
+        f1, S1 = sd_est_raw(a1, ar1, 1.0 / fs, n, method, pov)
+        f1c, S1c = f1.copy(), S1.copy()
+        fb, Sb = sd_est_raw(np.array(Y2, float), np.array(Yr2, float), 1.0 / fs, n, method, pov)  # the other record, before anything is overwritten
+        fbc, Sbc = fb.copy(), Sb.copy()
+        if f1c.shape != fe.shape or not np.allclose(f1c, fe, rtol=1e-12, atol=0):
+            ofail(ctx, method, "grid", "frequency vector of a first call is not k*fs/nxseg (df %.6g, expected %.6g)" % (f1c[2] - f1c[1] if len(f1c) > 2 else float("nan"), fs / n), case)
+            return
+        scribble(f1, S1)
+        if fb is not f1 and not np.shares_memory(fb, f1):
+            scribble(fb, Sb)
+        a1[...] = -7.0
+        ar1[...] = 3.0
+        for which, (Ya, Yra, fexp, Sexp) in (("same record", (Y1, Yr1, f1c, S1c)), ("another record", (Y2, Yr2, fbc, Sbc))):
+            a2, ar2 = np.array(Ya, float), np.array(Yra, float)
+            f2, S2 = sd_est_raw(a2, ar2, 1.0 / fs, n, method, pov)
+            if f2.shape != fe.shape or not np.allclose(f2, fe, rtol=1e-12, atol=0, equal_nan=False):
+                ofail(ctx, method, "ownership-grid", "after the caller overwrote the arrays of an earlier call in place (freq *= 2 pi, freq[0] = nan), the next estimate "
+                      "(%s, same nxseg=%d, fs=%g) returns a frequency vector that is not k*fs/nxseg: df got %.6g, expected %.6g; freq[0] = %r"
+                      % (which, n, fs, f2[2] - f2[1] if len(f2) > 2 else float("nan"), fs / n, float(f2[0]) if len(f2) else None), case)
+                return
+            if not np.array_equal(f2, fexp) or S2.shape != Sexp.shape or not np.array_equal(S2, Sexp):
+                ofail(ctx, method, "ownership-spectrum", "after the caller overwrote the arrays of an earlier call and its record in place, the next estimate (%s) "
+                      "differs from what a first call gave (rel. dev %.3g)" % (which, relerr(S2, Sexp) if S2.shape == Sexp.shape else float("inf")), case)
+                return
+            shared = [nm for nm, (x, y) in (("freq/earlier freq", (f2, f1)), ("Sy/earlier Sy", (S2, S1)), ("freq/other earlier freq", (f2, fb)),
+                                            ("Sy/other earlier Sy", (S2, Sb)), ("Sy/record", (S2, a2)), ("freq/record", (f2, a2))) if np.shares_memory(x, y)]
+            if shared:
+                ofail(ctx, method, "ownership-shared", "arrays returned by the next estimate (%s) share memory with arrays handed out or passed in before: %s"
+                      % (which, ", ".join(shared)), case)
+                return
+            scribble(f2, S2)  # and once more for the following round
+
+
+def oracle_ownership(ctx):
+    rng = ctx.np_rng
+    for path in sorted(glob.glob(os.path.join(VERIF, "corpus", "C13", "*.json"))):
+        c = json.load(open(path))
+        if c.get("kind") == "ownership":
+            ctx.count(dict(kind="corpus-ownership", file=os.path.basename(path)))
+            ownership_case(ctx, c["method"], c["n"], c["fs"], c["noverlap"], c["Y1"], c["Yref1"], c["Y2"], c["Yref2"], dict(c, corpus=os.path.basename(path)))
+    confs = [(method, n, fs) for method in ("cor", "per") for (n, fs) in ([(64, 32.0), (16, 51.2), (25, 100.0)] if ctx.quick()
+                                                                      else [(64, 32.0), (16, 51.2), (25, 100.0), (128, 0.5), (50, 12.5), (256, 99.0), (1024, 100.0)])]
+    for (method, n, fs) in confs:
+        nall, nref = int(rng.integers(1, 4)), int(rng.integers(1, 3))
+        m = [0, n // 4, n // 2][int(rng.integers(3))]
+        if exact_pov(n, m) is None:
+            m = 0
+        N1 = max(m + int(rng.integers(2, 6)) * (n - m) + 1, n)
+        N2 = max(m + int(rng.integers(2, 6)) * (n - m) + 2, n)
+        Y1, Yr1 = dyad(rng, (nall, N1)), dyad(rng, (nref, N1))
+        Y2, Yr2 = dyad(rng, (nall, N2)), dyad(rng, (nref, N2))
+        case = dict(kind="ownership", method=method, n=n, fs=fs, noverlap=m, Y1=Y1.tolist(), Yref1=Yr1.tolist(), Y2=Y2.tolist(), Yref2=Yr2.tolist())
+        ctx.count(dict(kind="ownership", method=method, n=n, fs=fs, m=m, d=float(Y1[0, 0]), N1=N1, N2=N2))
+        ctx.hist("ownership", (method, n, fs))
+        ownership_case(ctx, method, n, fs, m, Y1, Yr1, Y2, Yr2, case)
+    # through the classes: overwrite alg.result.freq / Sy of one object in place, then run ANOTHER object on another record with the same nxseg, fs, method
+    import pyoma2.algorithms as algs
+    from pyoma2.setup import SingleSetup
+    for (c1, c2, method, n, fs) in [("FDD", "EFDD", "cor", 64, 32.0), ("EFDD", "FDD", "per", 64, 32.0)]:
+        d1, d2 = dyad(rng, (n * 5 + 7, 3)), dyad(rng, (n * 6 + 3, 2))
+        case = dict(kind="class-ownership", first=c1, second=c2, method=method, nxseg=n, fs=fs, data1=d1.tolist(), data2=d2.tolist())
+        ctx.count(dict(kind="class-ownership", first=c1, second=c2, method=method, d=float(d1[0, 0])))
+        try:
+            with warnings.catch_warnings():
+                warnings.simplefilter("ignore")
+                s1, s2 = SingleSetup(d1.copy(), fs=fs), SingleSetup(d2.copy(), fs=fs)
+                a = getattr(algs, c1)(name="a", nxseg=n, method_SD=method, pov=0.5)
+                b = getattr(algs, c2)(name="b", nxseg=n, method_SD=method, pov=0.5)
+                s1.add_algorithms(a)
+                s2.add_algorithms(b)
+                s1.run_by_name("a")
+                fa, Sa = a.result.freq, a.result.Sy
+                _, Sexp = sd_est(d2.T, d2.T, 1.0 / fs, n, method, 0.5)
+                Sexp = Sexp.copy()
+                scribble(fa, Sa)
+                s2.run_by_name("b")
+                fb, Sb = np.asarray(b.result.freq), np.asarray(b.result.Sy)
+                s1.run_by_name("a")  # and the first object again
+                fa2 = np.asarray(a.result.freq)
+        except Exception as ex:
+            ctx.note("class ownership %s/%s (%s) not exercised: %s: %s" % (c1, c2, method, type(ex).__name__, str(ex)[:80]))
+            continue
+        fe = np.arange(n // 2 + 1) * fs / n
+        for nm, fx in ((c2 + " (another object, another record)", fb), (c1 + " (the same object run again)", fa2)):
+            if fx.shape != fe.shape or not np.allclose(fx, fe, rtol=1e-12, atol=0):
+                ctx.fail("oracle", "after %s.result.freq / Sy were overwritten in place by their owner, %s with the same nxseg=%d, fs=%g, method=%s stores a frequency vector "
+                         "that is not k*fs/nxseg: df got %.6g, expected %.6g" % (c1, nm, n, fs, method, fx[2] - fx[1] if len(fx) > 2 else float("nan"), fs / n),
+                         case, key="C13:glue:%s:ownership" % c2)
+                break
+        else:
+            if Sb.shape != Sexp.shape or not np.array_equal(Sb, Sexp) or np.shares_memory(fb, fa) or np.shares_memory(Sb, Sa):
+                ctx.fail("oracle", "after %s.result.freq / Sy were overwritten in place, %s.result on another record is not what a first run gives (or shares memory with them)"
+                         % (c1, c2), case, key="C13:glue:%s:ownership" % c2)
+
+
 def oracle_corpus(ctx):
     for path in sorted(glob.glob(os.path.join(VERIF, "corpus", "C13", "*.json"))):
         c = json.load(open(path))
@@ -861,3 +971,4 @@ def run(ctx):
     oracle_gain_delay(ctx)
     oracle_sinusoid(ctx)
     oracle_classes(ctx)
+    oracle_ownership(ctx)  # last: it overwrites returned arrays on purpose
